@@ -983,6 +983,13 @@ template<class Cursor, class F>
 auto with_wrapper(int w, Cursor& c, F&& f)
 {
     // f is called with the wrapped cursor; returns nothing (results are recorded inside f)
+#ifdef WIRE_REDUCED_API
+    // fallback build of a driver whose full form does not compile against the generated headers: only the
+    // plain cursor is instantiated; ops that need a wrapper report "unsupported" (message_op)
+    (void)w;
+    f(c, bool_c<false>{});
+    return;
+#else
     switch(w)
     {
     case W_INIT: f(sbepp::cursor_ops::init(c), bool_c<false>{}); break;
@@ -991,6 +998,21 @@ auto with_wrapper(int w, Cursor& c, F&& f)
     case W_SKIP: f(sbepp::cursor_ops::skip(c), bool_c<true>{}); break;
     default: f(c, bool_c<false>{}); break;
     }
+#endif
+}
+
+#ifdef WIRE_REDUCED_API
+constexpr bool kReducedApi = true;
+#else
+constexpr bool kReducedApi = false;
+#endif
+
+inline bool script_is_plain(const std::vector<Decision>* sc)
+{
+    if(!sc) return true;
+    for(auto& d : *sc)
+        if(d.wrapper != W_PLAIN) return false;
+    return true;
 }
 
 inline bool is_moving(int w)
@@ -1388,6 +1410,7 @@ bool encode_level(Ctx& cx, View v, const Node& n, const SchemaShape& sh, EncBudg
     return go;
 }
 
+#ifndef WIRE_REDUCED_API
 // The same producer in the cursor idiom: fields through plain cursor setters (views through the plain
 // cursor getter), `auto g = v.group(c); fill_group_header(g, n); for(e : g.cursor_range(c))`, data through
 // dont_move + assign followed by skip.
@@ -1454,6 +1477,8 @@ bool encode_level_cursor(Ctx& cx, View v, Cursor& c, const Node& n, const Schema
     return go;
 }
 
+#endif // WIRE_REDUCED_API
+
 // ---------------------------------------------------------- level dispatch
 template<class L, class View, class TagId>
 void level_op(Ctx& cx, View v)
@@ -1498,6 +1523,10 @@ void level_op(Ctx& cx, View v)
                     using TagT = typename decltype(tag)::type;
                     if(rq.arg == 1)
                         data_op(cx, sbepp::get_by_tag<TagT>(v));
+#ifdef WIRE_REDUCED_API
+                    else
+                        rs.unsupported = true;
+#else
                     else
                     {
                         auto c = sbepp::init_cursor(v);
@@ -1513,6 +1542,7 @@ void level_op(Ctx& cx, View v)
                                 rs.unsupported = true;
                         }
                     }
+#endif
                 }
                 else
                     data_op(cx, acc(v));
@@ -1688,9 +1718,13 @@ void message_op(Ctx& cx, const SchemaShape& sh)
         sbepp::fill_message_header(m);
         if(rq.arg & 1)
         {
+#ifdef WIRE_REDUCED_API
+            rs.unsupported = true;
+#else
             auto c = sbepp::init_cursor(m);
             whole = encode_level_cursor<L>(cx, m, c, root, sh, bud);
             rs.cursor_off = cx.off(c.pointer());
+#endif
         }
         else
             whole = encode_level<L>(cx, m, root, sh, bud);
@@ -1779,6 +1813,11 @@ void message_op(Ctx& cx, const SchemaShape& sh)
     case M_CURSOR_WALK:
     case M_SIZE_BYTES_CURSOR:
     {
+        if(kReducedApi && rq.sub == M_CURSOR_WALK && !script_is_plain(rq.script))
+        {
+            rs.unsupported = true;
+            break;
+        }
         ScriptState ss{rq.sub == M_CURSOR_WALK ? rq.script : nullptr};
         cx.by_tag = (rq.arg & 4) != 0;
         if(rq.arg & 1)
@@ -1865,9 +1904,13 @@ void message_op(Ctx& cx, const SchemaShape& sh)
             sbepp::fill_message_header(m);
             if(rq.arg & 1)
             {
+#ifdef WIRE_REDUCED_API
+                rs.unsupported = true;
+#else
                 auto c = sbepp::init_cursor(m);
                 whole = encode_level_cursor<L>(cx, m, c, root, sh, bud);
                 rs.cursor_off = cx.off(c.pointer());
+#endif
             }
             else
                 whole = encode_level<L>(cx, m, root, sh, bud);
